@@ -336,4 +336,155 @@ structure Sys.Idle (s : Sys) : Prop where
   useV2 : s.host.useV2 = s.dev.v2
   updV2 : s.host.updV2 = s.dev.v2
 
+/-! ### the retransmission path: `Crazyflie.send_packet` on a `needs_resending` link
+
+What a param request is armed with when it is transmitted, and what a fired retry timer may put on the wire.  The timer is
+split in two steps, as a `threading.Timer` thread: `expire` (it woke up and can no longer be cancelled) and `timerRun` (its
+callback runs `send_packet(resend=True, retry_timer=<itself>)`) - the answer, and the next request, may come in between. -/
+
+/-- `(pk.header,) + expected_reply`; the header of a PARAM packet is determined by its channel -/
+abbrev Pat := Nat × List UInt8
+
+def patOf (updV2 : Bool) (p : Pkt) : Pat := (p.chan, lockPatternOf updV2 p)
+
+/-- `_check_for_answers`: `len(p) <= len(data) and p == data[0:len(p)]` with `data = (pk.header,) + tuple(pk.data)` -/
+def patMatches (P : Pat) (q : Pkt) : Bool :=
+  P.1 == q.chan && decide (P.2.length ≤ q.data.length) && q.data.take P.2.length == P.2
+
+inductive TState
+  | armed | expired | done | cancelled
+  deriving DecidableEq, Repr
+
+structure RTimer where
+  pk : Pkt
+  pat : Pat
+  state : TState
+  deriving DecidableEq, Repr
+
+/-- `self._answer_patterns[P] = timer` (dict: an existing key keeps its place) -/
+def setPat (pats : List (Pat × Nat)) (P : Pat) (i : Nat) : List (Pat × Nat) :=
+  if pats.any (·.1 == P) then pats.map (fun e => if e.1 == P then (P, i) else e) else pats ++ [(P, i)]
+
+def getPat (pats : List (Pat × Nat)) (P : Pat) : Option Nat := (pats.find? (·.1 == P)).map (·.2)
+
+/-- the loop of `_check_for_answers`: the last of the longest matching patterns -/
+def longestMatch (q : Pkt) : List (Pat × Nat) → Option (Pat × Nat) → Option (Pat × Nat)
+  | [], best => best
+  | e :: es, best =>
+    if patMatches e.1 q then
+      match best with
+      | some b => if e.1.2.length ≥ b.1.2.length then longestMatch q es (some e) else longestMatch q es best
+      | none => longestMatch q es (some e)
+    else longestMatch q es best
+
+/-- `Timer.cancel()`: no effect once the timer thread has woken up -/
+def cancelTimer (ts : List RTimer) (i : Nat) : List RTimer :=
+  ts.modify i (fun t => if t.state = .armed then { t with state := .cancelled } else t)
+
+structure SysR where
+  base : Sys
+  nr : Bool                        -- `link.needs_resending`
+  pats : List (Pat × Nat)          -- `Crazyflie._answer_patterns`: pattern -> timer (index into `timers`)
+  timers : List RTimer
+  deriving DecidableEq, Repr
+
+/-- `_check_for_answers(pk)`, an all-packet callback: runs before the port callbacks of the same packet -/
+def SysR.onReceive (s : SysR) (q : Pkt) : SysR :=
+  match longestMatch q s.pats none with
+  | none => s
+  | some (P, i) => { s with timers := cancelTimer s.timers i, pats := s.pats.filter (fun e => !(e.1 == P)) }
+
+inductive EvR
+  | x (e : EvX)               -- an event of the open system
+  | expire (i : Nat)          -- timer `i` wakes up
+  | timerRun (i : Nat)        -- its callback runs
+  deriving DecidableEq, Repr
+
+/-- transmissions, releases and retransmissions, in order -/
+inductive ObsR
+  | tx (p : Pkt)
+  | rel (p : Pkt)
+  | retx (p : Pkt)
+  deriving DecidableEq, Repr
+
+def liftObs : Obs → ObsR
+  | .tx p => .tx p
+  | .rel p => .rel p
+
+/-- one step: new state, outputs of the param subsystem, and what the step put on / took as answer from the wire -/
+def SysR.step (S2F : List Char → Except PyErr Nat) (v : Variant) (s : SysR) : EvR → Option (SysR × List Out × List ObsR)
+  | .x (.ev .updSend) =>
+    match s.base.step S2F v .updSend with
+    | none => none
+    | some (b, o) =>
+      match o with
+      | [.tx p] =>
+        let P := patOf s.base.host.updV2 p
+        if Gen.C04.sendArms true (!P.2.isEmpty) false s.nr (getPat s.pats P).isSome false then
+          some ({ s with base := b, pats := setPat s.pats P s.timers.length, timers := s.timers ++ [⟨p, P, .armed⟩] }, o, [.tx p])
+        else some ({ s with base := b }, o, [.tx p])
+      | _ => some ({ s with base := b }, o, (obsOf o).map liftObs)
+  | .x (.ev .deliver) =>
+    match s.base.down with
+    | [] => none
+    | q :: _ =>
+      let s1 := s.onReceive q
+      (s1.base.step S2F v .deliver).map fun r => ({ s1 with base := r.1 }, r.2, (obsOf r.2).map liftObs)
+  | .x (.inject q) =>
+    let s1 := s.onReceive q
+    (s1.base.stepX S2F v (.inject q)).map fun r => ({ s1 with base := r.1 }, r.2, (obsOf r.2).map liftObs)
+  | .x e => (s.base.stepX S2F v e).map fun r => ({ s with base := r.1 }, r.2, (obsOf r.2).map liftObs)
+  | .expire i =>
+    match s.timers[i]? with
+    | some t =>
+      if t.state = .armed then some ({ s with timers := s.timers.modify i (fun t => { t with state := .expired }) }, [], [])
+      else none
+    | none => none
+  | .timerRun i =>
+    match s.timers[i]? with
+    | some t =>
+      if t.state = .expired then
+        let ts := s.timers.modify i (fun t => { t with state := .done })
+        let pe := (getPat s.pats t.pat).isSome
+        let ti := getPat s.pats t.pat == some i
+        let he := !t.pat.2.isEmpty
+        let s1 : SysR :=
+          if Gen.C04.sendArms true he true s.nr pe ti then
+            { s with timers := ts ++ [⟨t.pk, t.pat, .armed⟩], pats := setPat s.pats t.pat ts.length }
+          else { s with timers := ts }
+        if Gen.C04.sendTransmits true he true s.nr pe ti then
+          let r := s.base.dev.handle t.pk
+          some ({ s1 with base := { s.base with dev := r.1, down := s.base.down ++ r.2 } }, [], [.retx t.pk])
+        else some (s1, [], [])
+      else none
+    | none => none
+
+/-- run an event list: final state, param outputs, wire trace -/
+def SysR.run (S2F : List Char → Except PyErr Nat) (v : Variant) : SysR → List EvR → Option (SysR × List Out × List ObsR)
+  | s, [] => some (s, [], [])
+  | s, e :: es =>
+    match s.step S2F v e with
+    | none => none
+    | some (s1, o1, w1) =>
+      match SysR.run S2F v s1 es with
+      | none => none
+      | some (s2, o2, w2) => some (s2, o1 ++ o2, w1 ++ w2)
+
+/-- the wire discipline including retransmissions.  State: the outstanding request, and whether an answer was ever accepted
+from the OTHER channel than the request's (only a stale or forged packet can do that: finding D5c).  A retransmission must
+repeat the outstanding request - in particular never an answered one, and never an older request while a newer one with the
+same pattern is outstanding. -/
+def altStepR (v2 : Bool) : Option Pkt × Bool → ObsR → Option (Option Pkt × Bool)
+  | (none, x), .tx p => some (some p, x)
+  | (some r, x), .rel q => if Matches v2 r q then some (none, x || !(q.chan == r.chan)) else none
+  | (some r, x), .retx p => if x || p == r then some (some r, x) else none
+  | (none, x), .retx _ => if x then some (none, x) else none
+  | _, _ => none
+
+def altRunR (v2 : Bool) : Option Pkt × Bool → List ObsR → Option (Option Pkt × Bool)
+  | st, [] => some st
+  | st, o :: os => match altStepR v2 st o with
+    | none => none
+    | some st' => altRunR v2 st' os
+
 end CfVerif.C04
